@@ -546,6 +546,8 @@ void mv_wait_until_changed(const volatile void * addr, size_t sz) {
   myth_yield();
 }
 
+void mv_spin_until_changed(const volatile void * addr, size_t sz) { mythv_spin(mythv_p_user + 1, addr, sz); }
+
 static size_t mv_req_stacksize;
 void mv_set_default_stacksize(size_t sz) { mv_req_stacksize = sz; }   /* call before mv_start */
 
